@@ -352,6 +352,17 @@ def apply(m, mut):
             lo, hi = (lo + sh, hi) if kind[:2] == "lo" else (lo, hi + sh)
         m.header[ln] = "%.17g %.17g" % (lo, hi)
         return True
+    if op == "cellh_ncomp":      # the component count line of a level header (its third line)
+        _, lv, delta = mut
+        r = m.levels[lv]["cellh"][2]
+        try:
+            v = int(r[1])
+        except (TypeError, ValueError):
+            return False
+        if v + delta < 1:
+            return False
+        r[1] = str(v + delta)
+        return True
     if op == "ws":      # whitespace edits in headers (C20)
         _, which, lv = mut
         if which == "cellh_trailing":
@@ -382,6 +393,8 @@ def site(mut):
         return ("fod", mut[1], mut[2])
     if op == "bound":
         return ("bound", mut[1], mut[2], mut[3])
+    if op == "cellh_ncomp":
+        return ("cellh_ncomp", mut[1])
     return tuple(mut)
 
 
@@ -444,6 +457,8 @@ def singles(model, coords=False, textual=False):
                 for d in range(nd):
                     for kind in ("move", "swap", "grow", "lo-", "lo+", "hi-", "hi+", "lo_nan", "hi_nan", "lo_inf"):
                         out.append(["bound", lv, b, d, kind])
+        out.append(["cellh_ncomp", lv, 1])
+        out.append(["cellh_ncomp", lv, -1])
         if textual:
             out.append(["ws", "cellh_trailing", lv])
     if textual:
@@ -537,6 +552,8 @@ def ref_bad(path, limit=None, coords=False):
             return "level %d: FabOnDisk count line unparsable (a box entry is missing)" % lv
         if n != nb:
             return "level %d: Header announces %d boxes, level header %d" % (lv, nb, n)
+        if ncomp_h != nf:
+            return "level %d: level header announces %d components, the plotfile has %d fields" % (lv, ncomp_h, nf)
         files, offs = [], []
         for b in range(n):
             try:
